@@ -283,6 +283,9 @@ inductive Ev
   | pushStartFault                -- … during which a protocol's own updater raises from its start(): the
                                   -- facade has made itself the listener of every updater up to that one
                                   -- (`instance.listener = self` precedes `instance.start()`), the main one included
+  | tasksCancelled                -- the caller cancels the tasks close() handed out (`wait_for(gather(*atv.close()), t)`
+                                  -- timing out, application shutdown) — or they complete, or stay pending: close()
+                                  -- never looks at the state of the tasks it has handed out (facade.py:744-778)
   | connectNext                   -- the connect() of the protocol that `FacadeAppleTV.connect()` is awaiting
                                   -- completes: it is registered (facade.py:718-728); connect() touches neither
                                   -- the shield flags nor `_pending_tasks`
@@ -318,6 +321,7 @@ def step (cfg : Cfg) (s : St) : Ev → St × Out
   | .pushStartFault =>
     if isBlocking s cfg.pushObj then (s, .blocked) else ({ s with pushOn := true }, .faulted)
   | .connectNext => ({ s with handlers := s.handlers + 1 }, .none)
+  | .tasksCancelled => (s, .none)
   | .pushStop =>
     if isBlocking s cfg.pushObj then (s, .blocked) else ({ s with pushOn := false }, .pass)
   | .push i b =>
